@@ -675,6 +675,11 @@ func (x *CommonLex) Next() rune {
 	if c == utf8.RuneError && size == 1 {
 		return xutils.ERR
 	}
+	if c == 0 {
+		// A NUL character has the same value as the EOF marker and is not
+		// a legal character anyway.
+		return xutils.ERR
+	}
 	return c
 }
 
